@@ -408,6 +408,12 @@ class Run:
         self.build = None
         self.extra_cov = {}
         self.traces_validated = 0
+        # optional deeper search, run by finish() when a proof obligation or the correspondence
+        # broke but no input violating the property has been found yet: a callable that evaluates
+        # more cases through self.evaluate (thorough-size sample, neighbourhood of the disagreeing
+        # inputs, cell-by-cell evaluation of regenerated tables, ...)
+        self.escalation = None
+        self.escalated = False
 
     # -- statistics -------------------------------------------------------
     def count(self, key, n=1):
@@ -490,13 +496,20 @@ class Run:
             print("ERROR property=%s driver could not answer %d request(s); first: %s" % (
                 self.prop, len(self.driver_errors), p))
             exit_code = 2
+        proofs_broken = self.build is not None and (not self.build.proofs_ok or bool(self.audit_bad))
+        if not self.spec_failures and (self.corr_failures or proofs_broken) and self.escalation is not None \
+                and not self.escalated:
+            self.escalated = True
+            try:
+                self.escalation()
+            except Exception:  # the search is best effort; the verdict below still stands
+                traceback.print_exc()
         if self.spec_failures:
             o = min(self.spec_failures, key=lambda o: len(o.case.line()))
             p = self.write_replay("failing-input", "spec", self.outcome_payload(o))
             print("VIOLATION property=%s replay=%s" % (self.prop, p))
             violations += len(self.spec_failures)
             exit_code = 1
-        proofs_broken = self.build is not None and (not self.build.proofs_ok or self.audit_bad)
         if not self.spec_failures and (self.corr_failures or proofs_broken):
             # a proof obligation or the correspondence no longer checks and the search over this
             # run's inputs found no input on which the property itself fails
@@ -548,6 +561,7 @@ class Run:
             "correspondence_failures": len(self.corr_failures),
             "known_finding_hits": len(self.known_hits),
             "explanation": explanation,
+            "escalated_search": self.escalated,
             "build_wall_s": round(self.build.wall, 2) if self.build else None,
             "repo_head": repo_head(),
         }
